@@ -32,7 +32,7 @@ Fixpoint typed (t : ty) (x : pyval) {struct t} : Prop :=
                              | (n, t') :: r => (key_is (fst kv) n = true /\ typed t' (snd kv)) \/ find r
                              end) fs) kvs
   | TUnion ms => (fix go (l : list ty) : Prop := match l with [] => False | m :: r => typed m x \/ go r end) ms
-  | TLiteral vals => existsb (py_eqb x) vals = true
+  | TLiteral vals => existsb (lit_match x) vals = true
   | TEnum n members => exists m v, x = VEnum n m v /\ In (m, v) members
   | TClass h fs =>
       exists fields vals, x = VInst (c_name h) fields (map fst vals) /\
@@ -236,7 +236,7 @@ Proof.
     simpl. exists d. split; [reflexivity|]. now apply lit_loop_typed with (kvs := pairs_of v).
   - (* unions *) simpl in H. simpl. eapply first_ok_typed; eauto.
   - (* literals: the value itself *)
-    simpl in H. destruct (existsb (py_eqb v) vals) eqn:E; [|discriminate]. inversion H; subst. exact E.
+    simpl in H. destruct (existsb (lit_match v) vals) eqn:E; [|discriminate]. inversion H; subst. exact E.
   - (* enums: the member *)
     simpl in H. destruct (tc_enum_inner members v) as [y| |z]; try discriminate.
     unfold guard in H. destruct (enum_lookup n members y) as [m|z] eqn:E; [|try discriminate; destruct (caught _ _); discriminate].
@@ -286,14 +286,19 @@ Proof.
   - destruct H as [_ ->]. reflexivity.
 Qed.
 
-Theorem accepts_literal vals v x : tc (TLiteral vals) v = Ok x <-> x = v /\ exists l, In l vals /\ py_eqb v l = true.
+Theorem accepts_literal vals v x :
+  tc (TLiteral vals) v = Ok x <-> x = v /\ exists l, In l vals /\ kind_of v = kind_of l /\ py_eqb v l = true.
 Proof.
-  simpl. destruct (existsb (py_eqb v) vals) eqn:E.
+  simpl. destruct (existsb (lit_match v) vals) eqn:E.
   - apply existsb_exists in E. destruct E as (l & Hin & Hl). split.
-    + intros H; inversion H; subst. split; [reflexivity|eauto].
+    + intros H; inversion H; subst. split; [reflexivity|]. exists l. split; [exact Hin|].
+      split; [now apply lit_match_kind|now apply lit_match_eqb].
     + intros [-> _]; reflexivity.
-  - split; [discriminate|]. intros [_ (l & Hin & Hl)].
-    assert (existsb (py_eqb v) vals = true) by (apply existsb_exists; eauto). congruence.
+  - split; [discriminate|]. intros [_ (l & Hin & Hk & Hl)].
+    assert (existsb (lit_match v) vals = true).
+    { apply existsb_exists. exists l. split; [exact Hin|]. unfold lit_match. rewrite Hk, Hl.
+      destruct (kind_of l) as [| | | | | | | | | | | | | | |s|]; try reflexivity. destruct s; reflexivity. }
+    congruence.
 Qed.
 
 (* List[T] / Sequence[T]: a real sequence whose elements are accepted one by one; the image keeps
